@@ -1,6 +1,6 @@
 (** Pinned statements of the C03 property theorems: compiled on every check, so a theorem cannot be
     weakened silently. *)
-From V Require Import Base.Util Gql.Ast C03.Model C03.Spec C03.Witness C03.Proofs C03.Properties.
+From V Require Import Base.Util Gql.Ast C03.Model C03.Spec C03.Witness C03.Proofs C03.Proofs2 C03.Proofs3 C03.Proofs4 C03.Proofs5 C03.Properties.
 
 Check (C03_sound_unique_op_names : forall S D,
   check_operation_document S D = [] -> rule_ok S D R_unique_op_names = true).
@@ -16,6 +16,35 @@ Check (C03_sound_fragment_definition_targets : forall S D,
   check_operation_document S D = [] ->
   forallb (fun f => match sp_type S (iname (fr_cond f)) with Some t => is_composite t | None => false end)
           (doc_fragdefs D) = true).
+Check (C03_sound : forall S D,
+  schema_wf S = true -> check_operation_document S D = [] ->
+  forall r, r <> R_single_subscription_root -> rule_ok_vis S D r = true).
+Check (C03_sound_fields_exist : forall S D,
+  schema_wf S = true -> check_operation_document S D = [] -> rule_ok_vis S D R_fields_exist = true).
+Check (C03_sound_leaf_vs_composite : forall S D,
+  schema_wf S = true -> check_operation_document S D = [] -> rule_ok_vis S D R_leaf_vs_composite = true).
+Check (C03_sound_arguments : forall S D,
+  schema_wf S = true -> check_operation_document S D = [] ->
+  rule_ok_vis S D R_args_defined = true /\ rule_ok_vis S D R_required_args = true /\ rule_ok_vis S D R_literal_types = true).
+Check (C03_sound_variables : forall S D,
+  schema_wf S = true -> check_operation_document S D = [] ->
+  rule_ok_vis S D R_vars_defined = true /\ rule_ok_vis S D R_var_usage_compatible = true).
+Check (C03_sound_fragments : forall S D,
+  schema_wf S = true -> check_operation_document S D = [] ->
+  rule_ok_vis S D R_fragment_targets = true /\ rule_ok_vis S D R_spreads_defined = true
+  /\ rule_ok_vis S D R_no_cycles = true /\ rule_ok_vis S D R_spread_possible = true).
+Check (C03_sound_directives : forall S D,
+  schema_wf S = true -> check_operation_document S D = [] ->
+  rule_ok_vis S D R_directives_defined = true /\ rule_ok_vis S D R_directives_location = true
+  /\ rule_ok_vis S D R_directives_unique = true).
+Check (C03_check_value_sound : forall S vars, schema_wf S = true -> forall v t,
+  check_value S vars v t = [] ->
+  lit_ok S v t = true /\ forall ld, Forall (use_ok vars) (var_uses false S v (Some t) ld)).
+Check (C03_guard_satisfiable :
+  schema_wf w_schema_0 = true /\ check_operation_document w_schema_0 w_doc_14 = []
+  /\ Nat.ltb 40 (length (flat_map (vis_op_sites w_schema_0 w_doc_14) (doc_ops w_doc_14))) = true).
+Check (C03_sound_full_refuted :
+  ~ (forall S D, schema_wf S = true -> check_operation_document S D = [] -> forall r, rule_ok S D r = true)).
 Check (C03_type_compat_is_AreTypesCompatible : forall vt et, type_compat vt et = types_compatible vt et).
 Check (C03_unspread_fragment_refuted :
   exists S D, check_operation_document S D = [] /\ rule_ok S D R_fields_exist = false).
@@ -34,6 +63,16 @@ Print Assumptions C03_sound_unique_fragments.
 Print Assumptions C03_sound_unique_vars.
 Print Assumptions C03_sound_vars_input_types.
 Print Assumptions C03_sound_fragment_definition_targets.
+Print Assumptions C03_sound.
+Print Assumptions C03_sound_fields_exist.
+Print Assumptions C03_sound_leaf_vs_composite.
+Print Assumptions C03_sound_arguments.
+Print Assumptions C03_sound_variables.
+Print Assumptions C03_sound_fragments.
+Print Assumptions C03_sound_directives.
+Print Assumptions C03_check_value_sound.
+Print Assumptions C03_guard_satisfiable.
+Print Assumptions C03_sound_full_refuted.
 Print Assumptions C03_type_compat_is_AreTypesCompatible.
 Print Assumptions C03_unspread_fragment_refuted.
 Print Assumptions C03_same_interface_refuted.
